@@ -35,6 +35,18 @@ def beqShapeL : List GTree → List GTree → Bool
   | _, _ => false
 end
 
+mutual
+/-- exact equality of trees (symbols, texts, flags, sources) -/
+def beqTree : GTree → GTree → Bool
+  | .leaf v r, .leaf w r' => v == w && r == r'
+  | .node s r ks ss, .node s' r' ks' ss' => s == s' && r == r' && beqTreeL ks ks' && beqTreeL ss ss'
+  | _, _ => false
+def beqTreeL : List GTree → List GTree → Bool
+  | [], [] => true
+  | a :: as, b :: bs => beqTree a b && beqTreeL as bs
+  | _, _ => false
+end
+
 /-- an ancestor as the code sees it through `.parent`: symbol, `children`, `sources` -/
 structure Frame where
   sym : String
@@ -222,6 +234,13 @@ def lookupRepl (p : List Nat) : Repl → Option GTree
     | some x => some x
     | none => if q == p then some r else none
 
+/-- the test at the head of `replace_multiple`: a replacement is registered for this path, it has the node's symbol,
+    and the node is not read-only -/
+def target (repl : Repl) (path : List Nat) (t : GTree) : Option GTree :=
+  match lookupRepl path repl with
+  | some r => if sameSym t r && !t.ro then some r else none
+  | none => none
+
 /-- an installed copy, as `populate_sources` left it, with the symbols above it -/
 abbrev Install := List String × GTree
 
@@ -241,9 +260,7 @@ mutual
 def replaceG (E : Env) (repl : Repl) : Nat → List Frame → List Nat → GTree → Log → Except Err Out
   | 0, _, _, _, _ => .error .fuel
   | f + 1, ctx, path, t, log =>
-    match (match lookupRepl path repl with
-           | some r => if sameSym t r && !t.ro then some r else none
-           | none => none) with
+    match target repl path t with
     | some (.leaf v rr) =>
       -- the copy of a terminal: no children, `populate_sources` finds nothing
       .ok ⟨.leaf v rr, log, [(ctxSyms ctx, .leaf v rr)]⟩
@@ -316,6 +333,18 @@ def srcOKB (S : Spec) : List String → GTree → Bool
 def srcOKLB (S : Spec) : List String → List GTree → Bool
   | _, [] => true
   | path, t :: ts => srcOKB S path t && srcOKLB S path ts
+end
+
+
+mutual
+/-- no node of the tree (through children) has a generator-defined symbol: what plain mutation / crossover
+    material looks like -/
+def genFreeB (S : Spec) : GTree → Bool
+  | .leaf _ _ => true
+  | .node s _ kids _ => (S.params s).isNone && genFreeLB S kids
+def genFreeLB (S : Spec) : List GTree → Bool
+  | [] => true
+  | t :: ts => genFreeB S t && genFreeLB S ts
 end
 
 end FV.Gen
